@@ -541,11 +541,13 @@ class ContiguousBuffer final {
                        kSubOffset);
     }
     using ResultStorageType = OffsetStorageType<kSubAlignment, kSubOffset>;
-    return bytes_ == nullptr
+    // An offset past the end of the buffer yields a null buffer: forming
+    // `bytes_ + offset` would be undefined behavior (and can wrap around for
+    // offsets computed from the data).
+    return bytes_ == nullptr || size_ < offset
                ? ResultStorageType{nullptr}
-               : ResultStorageType{
-                     bytes_ + offset,
-                     size_ < offset ? 0 : ::std::min(size, size_ - offset)};
+               : ResultStorageType{bytes_ + offset,
+                                   ::std::min(size, size_ - offset)};
   }
 
   // ReadLittleEndianUInt, ReadBigEndianUInt, and the unchecked versions thereof
